@@ -248,8 +248,12 @@ def apply_step(st: Store, sn: str, i: int, ev: dict, stp: str, res: dict, ctx: d
         return
     try:
         if op in ("noop", "check", "capability", "namespace", "lsub"):
+            s_ = st2.session(sn)
+            orphaned = bool(getattr(s_, "orphaned", False))
             _sync(st2, sn)
-            yield out(st2, ("OK",))
+            # a session whose selected mailbox another session has deleted: the protocol does not say what its NOOP gets (asimap
+            # says OK when the DELETE is over, "NO mailbox deleted" while it is going on, BYE to a later FETCH): either is accepted
+            yield out(st2, ("EMPTY",) if (orphaned and op in ("noop", "check")) else ("OK",))
         elif op == "expunge":
             _sync(st2, sn)
             uidset = ev.get("uidset")
